@@ -25,9 +25,12 @@
                   (check2ResumePush + setActive);
       [EClose]    the select takes closechan (after Push.Close);
       [ERestart]  a new Push is built over the same stores ([init]).
-    Goroutine scheduling is the order of the events.  Not modelled: two task
-    goroutines for one subscriber (addSubscriber racing with the start or the
-    end of a task), a process crash between PostData and setLastPushSeq. *)
+    Goroutine scheduling is the order of the events.  This file is ONE task
+    goroutine whose start and end are atomic; several goroutines of one
+    subscriber (addSubscriber racing with the start or the end of a task, a
+    second concurrent first registration) are the transition system of
+    ModelReg.v.  Not modelled: a process crash between PostData and
+    setLastPushSeq. *)
 From Coq Require Import List ZArith Bool.
 Import ListNotations.
 Open Scope Z_scope.
